@@ -16,6 +16,8 @@ from ..flow import Domain, Walker
 from ..tables import rule, VAR_CARRIERS, SCHEMA_COLUMNS
 from . import analysis
 
+rule("C07.w", "rows of merged / deleted variables are re-labelled through the *labels* of those variables (every row that carries the label, "
+              "whichever group it belongs to), not through a mask over the rows of the current group", floor=1)
 rule("C07.f", "after per-variable carriers are shrunk with np.delete the mapping labels are renumbered (the labels set on the "
               "mapping depend on the deleted set)", floor=1)
 rule("C07.g", "NaN assertions on c l u b execute on every path through OptimProblem.__init__; l <= u is asserted before any "
@@ -125,7 +127,7 @@ class _FramesWalker(Walker):
         return super().s_For(node, s)
 
 
-@analysis("frames", ["C07.f", "C07.g", "C07.i"])
+@analysis("frames", ["C07.f", "C07.g", "C07.i", "C07.w"])
 def run(ctx):
     p = ctx.p
     # ================================================================= C07.f
@@ -170,6 +172,24 @@ def run(ctx):
                    "variables are deleted from the per-variable carriers but the mapping index is never re-established: the "
                    "labels still refer to the old numbering", node=dels[0])
             continue
+        # C07.w: how are the rows selected whose label column is rewritten inside the merge loop?
+        from .spaces import Typer, _describe
+        ty = Typer(ctx, fn)
+        for st, vals, how in index_exprs:
+            for s2, v in vals:
+                t2 = s2.targets[0]
+                if not (isinstance(t2, ast.Subscript) and isinstance(t2.slice, ast.Tuple) and len(t2.slice.elts) == 2 and isinstance(t2.value, ast.Attribute)
+                        and t2.value.attr == "loc" and any(isinstance(a, ast.For) for a in ctx.p.ancestors(s2))):
+                    continue
+                sel = t2.slice.elts[0]
+                tp = ty.typ(sel, s2)
+                ok = None if tp is None else (tp[0] == "idx" and tp[1] == "label")
+                ctx.ob("C07.w", fn, au.short(s2, 80), ok,
+                       "the label column is rewritten for the rows selected by %s (%s): only the rows of the current group are redirected to "
+                       "the leading variable. A variable with several rows (one per node for a transport, one per minor step for a coarser "
+                       "frequency) has rows in other groups too - those groups are skipped once the variable has been joined - and these rows "
+                       "keep the label of a variable that is then deleted (index -1 / the previous asset's last variable)" % (
+                           au.short(sel, 30), _describe(tp)) if tp is not None else "the selector %s could not be typed" % au.short(sel, 30), node=s2)
         for st, vals, how in index_exprs:
             dep = False
             for s2, v in vals:
